@@ -7,6 +7,12 @@ def make_breaks(rng, ncells, kind, a=None, b=None):
     L = (10 ** rng.uniform(-1, 1.3)) if b is None else (b - a)
     if kind == "uniform":
         return np.linspace(a, a + L, ncells + 1)
+    if kind == "near-uniform":   # uniform up to a jitter far above rounding but below the usual "is close" thresholds
+        x = np.linspace(a, a + L, ncells + 1)
+        h = L / ncells
+        for i in range(1, ncells):
+            x[i] += h * rng.choice([-1, 1]) * 10 ** rng.uniform(-9, -5.3)
+        return x
     if kind == "random":
         w = np.array([rng.uniform(0.2, 1.0) for _ in range(ncells)])
     elif kind == "graded":      # cell ratios up to 100
@@ -22,7 +28,7 @@ def make_breaks(rng, ncells, kind, a=None, b=None):
 
 
 def make_basis(spl, cfg, rng=None):
-    """cfg: degree, ncells, periodic, kind (uniform|random|graded|alternating), fast (bool), breaks(optional list)"""
+    """cfg: degree, ncells, periodic, kind (uniform|random|graded|alternating|near-uniform), fast (bool), breaks(optional list)"""
     import random
     rng = rng or random.Random(cfg.get("seed", 0))
     if cfg.get("breaks") is not None:
@@ -45,7 +51,7 @@ def random_cfg(rng, max_degree=5, max_cells=40, allow_fast=True):
     if fast and not periodic:
         lo = 3       # (fewer cells are exercised by dedicated cases)
     ncells = rng.choice([lo, lo + 1, lo + 2, rng.randint(lo, max(lo, 12)), rng.randint(lo, max(lo, max_cells))])
-    kind = "uniform" if fast else rng.choice(["uniform", "random", "graded", "alternating"])
+    kind = "uniform" if fast else rng.choice(["uniform", "random", "graded", "alternating", "near-uniform"])
     return {"degree": degree, "ncells": ncells, "periodic": periodic, "kind": kind, "fast": fast,
             "uniform_flag": (kind == "uniform" and rng.random() < 0.5), "seed": rng.randrange(1 << 30)}
 
